@@ -1,0 +1,17 @@
+//go:build verif
+
+// Machine-checked contracts (comments only) for the command-line splitter
+// (C17); read by /verif/govc. Decided here for ALL inputs: no index is out of
+// range, the scan terminates, and an error is never returned together with an
+// argument list. The quote/split round trip is checked separately as a BOUNDED
+// enumeration (see /verif/harness/c17_roundtrip_test.go).
+
+package shellparse
+
+//@ func Parse
+//@ props C17
+//@ loop 1 invariant index: 0 <= i && i <= len(runes)
+//@ loop 1 invariant args: 0 <= len(args) && len(args) <= cap(args) && cap(args) < 1<<40 && valid(args.data, cap(args)*16)
+//@ loop 1 decreases len(runes) - i
+//@ ensures C17 error-xor-result: result1.itab != nil ==> len(result0) == 0 && result0.data == nil
+//@ modifies nothing
